@@ -506,6 +506,40 @@ func emitCookie(e *emitter, p *pkg) {
 		e.strList("cookieWaitTimeoutCalls", []string{"other:no-timeout-branch"})
 		e.missing = append(e.missing, e.key("cookieWaitTimeoutCalls"))
 	}
+	// readHandshake, fragment branch: once a message has been rebuilt (`if !fb.complete() { continue }`
+	// passed) its reassembly buffer is removed from c.pendingFragments before the message is
+	// delivered, so a later fragment with that message_seq starts an empty buffer and cannot make
+	// the same ClientHello arrive a second time (message_seq is not checked on receipt).
+	rxDropped := false
+	if fd := p.funcs["Conn.readHandshake"]; fd != nil && fd.Body != nil {
+		ast.Inspect(fd.Body, func(n ast.Node) bool {
+			is, ok := n.(*ast.IfStmt)
+			if !ok || !strings.Contains(p.src(is.Cond), "fragLen < bodyLen") {
+				return true
+			}
+			key, afterComplete := "", false
+			for _, st := range is.Body.List {
+				switch x := st.(type) {
+				case *ast.AssignStmt:
+					if len(x.Rhs) == 1 {
+						if ix, ok := x.Rhs[0].(*ast.IndexExpr); ok && p.src(ix.X) == "c.pendingFragments" {
+							key = p.src(ix.Index)
+						}
+					}
+				case *ast.IfStmt:
+					if p.src(x.Cond) == "!fb.complete()" {
+						afterComplete = true
+					}
+				case *ast.ExprStmt:
+					if afterComplete && key != "" && p.src(x.X) == "delete(c.pendingFragments, "+key+")" {
+						rxDropped = true
+					}
+				}
+			}
+			return false
+		})
+	}
+	e.boolean("cookieRxDeliveredBufferDropped", rxDropped)
 	// the HelloVerifyRequest that is sent: its composite literal (the cookie field must be the
 	// freshly generated cookie and nothing else)
 	hvrLit := ""
